@@ -21,6 +21,9 @@ pub struct Cfg {
     pub indent: Option<u32>,
     /// serialise the document node (false: the top element as an element-rooted subtree)
     pub from_document: bool,
+    /// serialise the first element child of the top element in place instead (its ancestors' xml:space is in force)
+    #[serde(default)]
+    pub inner: bool,
 }
 
 #[derive(Serialize, Deserialize, Clone)]
@@ -149,10 +152,21 @@ pub fn eval_case(case: &Case, st: &mut Stats) -> Vec<Fail> {
     let mut xot = Xot::new();
     let doc = build1(&mut xot, &case.tree);
     let p = params(&mut xot, &case.cfg);
-    let node = if case.cfg.from_document { doc } else { xot.document_element(doc).unwrap() };
-    let expected = if case.cfg.from_document { case.tree.clone() } else { A::doc(vec![case.tree.ch.iter().find(|c| c.k == K::Elem).unwrap().clone()]) };
+    let top_a = case.tree.ch.iter().find(|c| c.k == K::Elem).unwrap();
+    let mut outer_preserve = false;
+    let (node, expected) = if case.cfg.inner {
+        let Some(pos) = top_a.ch.iter().position(|c| c.k == K::Elem) else { return fails };
+        let top = xot.document_element(doc).unwrap();
+        let n = xot.children(top).nth(pos).unwrap();
+        outer_preserve = top_a.attrs.iter().find(|x| x.ns == XML_NS && x.name == "space").map(|x| x.val.as_deref() == Some("preserve")).unwrap_or(false);
+        (n, A::doc(vec![top_a.ch[pos].clone()]))
+    } else if case.cfg.from_document {
+        (doc, case.tree.clone())
+    } else {
+        (xot.document_element(doc).unwrap(), A::doc(vec![top_a.clone()]))
+    };
     st.evals += 1;
-    let cfgs = format!("cdata={} gt={} decl={} indent={:?} doc={}", case.cfg.cdata, case.cfg.unescaped_gt, case.cfg.declaration, case.cfg.indent, case.cfg.from_document);
+    let cfgs = format!("cdata={} gt={} decl={} indent={:?} doc={} inner={}", case.cfg.cdata, case.cfg.unescaped_gt, case.cfg.declaration, case.cfg.indent, case.cfg.from_document, case.cfg.inner);
     let mode = if case.cfg.indent.is_some() { "indent" } else { "plain" };
     let text = match catch(|| xot.serialize_xml_string(p, node)) {
         Err(pn) => {
@@ -190,7 +204,7 @@ pub fn eval_case(case: &Case, st: &mut Stats) -> Vec<Fail> {
             }
         }
         Some(mask) => {
-            let r = aligned(&expected, &got, &Ctxt { no_indent: false, preserve: false }, mask);
+            let r = aligned(&expected, &got, &Ctxt { no_indent: false, preserve: outer_preserve }, mask);
             if let Err(cls) = r {
                 fails.push(Fail::new(format!("indent|{}", cls), format!("{} [{}] -> {:?} reparsed as {}", case.tree.show(), cfgs, text, got.show())));
             } else if got.size() > expected.size() {
@@ -229,7 +243,7 @@ fn text_sweep_case(l: u32, i: u64) -> Option<Case> {
         return None;
     }
     let tree = A::doc(vec![A::el("", "a").child(A::el("", "b").child(A::text(&s))).child(A::text(&s))]);
-    Some(Case { tree, cfg: Cfg { cdata: d[1] as u32, unescaped_gt: d[2] == 1, declaration: d[3] as u32, indent: None, from_document: true } })
+    Some(Case { tree, cfg: Cfg { cdata: d[1] as u32, unescaped_gt: d[2] == 1, declaration: d[3] as u32, indent: None, from_document: true, inner: false } })
 }
 
 const SPACE: [Option<&str>; 4] = [None, Some("preserve"), Some("default"), Some("other")];
@@ -290,7 +304,7 @@ fn indent_sweep_case(tier: Tier, mut i: u64) -> Case {
         i /= per;
         inner = Some(level(names[lv], (d / 16) as usize, ((d / 4) % 4) as usize, (d % 4) as usize, inner));
     }
-    Case { tree: A::doc(vec![inner.unwrap()]), cfg: Cfg { cdata: 0, unescaped_gt: false, declaration: 0, indent: Some((cfgi % 4) as u32), from_document: cfgi / 4 == 0 } }
+    Case { tree: A::doc(vec![inner.unwrap()]), cfg: Cfg { cdata: 0, unescaped_gt: false, declaration: 0, indent: Some((cfgi % 4) as u32), from_document: cfgi / 4 == 0, inner: false } }
 }
 
 const INDENTS: [u32; 5] = [0, 1, 2, 3, 3 | 1 << 4];
@@ -307,7 +321,11 @@ fn ws_sweep_cases() -> Vec<Case> {
         for t in trees {
             for m in INDENTS {
                 for from_document in [true, false] {
-                    out.push(Case { tree: A::doc(vec![t.clone()]), cfg: Cfg { cdata: 0, unescaped_gt: false, declaration: 0, indent: Some(m), from_document } });
+                    out.push(Case { tree: A::doc(vec![t.clone()]), cfg: Cfg { cdata: 0, unescaped_gt: false, declaration: 0, indent: Some(m), from_document, inner: false } });
+                }
+                // the nested element serialised in place
+                if t.ch.iter().any(|c| c.k == K::Elem && c.name == "b") {
+                    out.push(Case { tree: A::doc(vec![t.clone()]), cfg: Cfg { cdata: 0, unescaped_gt: false, declaration: 0, indent: Some(m), from_document: false, inner: true } });
                 }
             }
         }
@@ -329,7 +347,7 @@ fn suppress_list_cases() -> Vec<Case> {
             let perms = [1u32, 1, 2, 6][n as usize];
             for p in 0..perms {
                 for from_document in [true, false] {
-                    out.push(Case { tree: tree.clone(), cfg: Cfg { cdata: 0, unescaped_gt: false, declaration: 0, indent: Some(members | p << 4), from_document } });
+                    out.push(Case { tree: tree.clone(), cfg: Cfg { cdata: 0, unescaped_gt: false, declaration: 0, indent: Some(members | p << 4), from_document, inner: false } });
                 }
             }
         }
@@ -347,7 +365,7 @@ fn general_cases(tier: Tier) -> Vec<Case> {
                 for gt in [false, true] {
                     for indent in [None, Some(0), Some(1), Some(2), Some(3), Some(3 | 1 << 4)] {
                         for from_document in [true, false] {
-                            out.push(Case { tree: A::doc(vec![t.clone()]), cfg: Cfg { cdata, unescaped_gt: gt, declaration: (k as u32 + cdata) % 6, indent, from_document } });
+                            out.push(Case { tree: A::doc(vec![t.clone()]), cfg: Cfg { cdata, unescaped_gt: gt, declaration: (k as u32 + cdata) % 6, indent, from_document, inner: false } });
                         }
                     }
                 }
